@@ -127,7 +127,7 @@ class LexModel:
         it = Interp(self.model, self.ns, flags)
         # setattr(self.lexer, attr, const) needs a builtin
         node = f.node
-        env = {}
+        env = {"__module__": f.module}
         for st in node.body:
             self._reset_stmt(it, st, env, flags)
         return dict(flags.__dict__)
